@@ -18,7 +18,15 @@
 //!
 //! By-design behaviour that is NOT judged (don't-cares):
 //!  * whole-packet byte equality (compression choices differ between encoders);
-//!  * messages the encoder rejects (> 65 535 octets, …): counted (`encoder_rejected/*`), not judged;
+//!  * messages the encoder rejects are JUDGED (clause E: `A-encode-failed` / `B-reencode-failed` /
+//!    `S-encode-failed`) unless the message legitimately cannot be encoded, which for the values
+//!    this check produces means exactly one thing: its uncompressed size (the harness' own estimate,
+//!    `size.rs`, an upper bound of what a compressing encoder needs) exceeds 65 535 octets — counted
+//!    as `encoder_rejected/oversize/*`. Nothing else the generators produce is documented by
+//!    hickory as unencodable: labels are ≤ 63 and names ≤ 255 octets, character-strings ≤ 255, CAA
+//!    tags ≤ 15 octets, SvcParamKeys strictly ascending with non-empty mandatory / alpn lists, TSIG
+//!    time < 2^48 and MAC / other-data ≤ 65 535, ECS prefixes ≤ the family's width, NSEC3 salt / hash
+//!    ≤ 255 (all either enforced by the decoder the value came from or by the generator);
 //!  * generated / mutated bytes the decoder rejects: counted, not judged (that is C01's business);
 //!  * extended rcode (> 15) on a message without EDNS: hickory warns and drops the high bits; the
 //!    comparison is then on the low 4 bits only and the case is counted (`ext_rcode_without_edns`);
@@ -38,6 +46,10 @@
 
 #[path = "wire.rs"]
 mod wire;
+mod sbuild;
+mod sgen;
+mod size;
+mod sjudge;
 
 use std::net::{IpAddr, Ipv4Addr, Ipv6Addr};
 
@@ -121,7 +133,13 @@ fn cmp_records(section: &str, a: &[Record], b: &[Record]) -> Option<Diff> {
         if x.ttl != y.ttl {
             return f("ttl", x.ttl.to_string(), y.ttl.to_string());
         }
-        let (dx, dy) = (format!("{:?}", x.data), format!("{:?}", y.data));
+        let (mut dx, mut dy) = (format!("{:?}", x.data), format!("{:?}", y.data));
+        if matches!(x.record_type(), RecordType::NSEC | RecordType::NSEC3 | RecordType::CSYNC) {
+            // `RecordTypeSet` caches the octets it was decoded from (`original_encoding`, private,
+            // ignored by its `PartialEq`, rendered as `Some(...)` / `None`): not part of the value
+            dx = dx.replace("original_encoding: Some(...)", "original_encoding: None");
+            dy = dy.replace("original_encoding: Some(...)", "original_encoding: None");
+        }
         if x.data != y.data || dx != dy {
             return f(&format!("rdata.{}", variant_name(x)), dx, dy);
         }
@@ -246,13 +264,111 @@ fn diff_messages(a: &Message, b: &Message, low_rcode_only: bool) -> Option<Diff>
 // the oracle
 
 fn err_kind(e: &dyn std::fmt::Debug) -> String {
-    let s = format!("{e:?}");
+    let full = format!("{e:?}");
+    let mut s = full.as_str();
+    // ProtoError::Decode(DecodeError::X(..)) -> X
+    for wrapper in ["Decode(", "Proto(", "Io("] {
+        if let Some(rest) = s.strip_prefix(wrapper) {
+            s = rest;
+        }
+    }
     let end = s.find(|c: char| !(c.is_alphanumeric() || c == '_')).unwrap_or(s.len());
     if end == 0 {
-        "Other".into()
-    } else {
-        s[..end].to_string()
+        return "Other".into();
     }
+    let head = &s[..end];
+    if head == "Message" || head == "Msg" {
+        // free-text errors: keep a slug of the text
+        let slug: String = s[end..].chars().filter(|c| c.is_alphanumeric() || *c == ' ').take(48).collect::<String>().trim().replace(' ', "-");
+        return format!("{head}:{slug}");
+    }
+    head.to_string()
+}
+
+/// Clause (E): what in a message value could make an encoder fail although the message fits.
+fn cause_class(m: &Message) -> &'static str {
+    let mut longest = 0usize;
+    let mut label = 0usize;
+    let mut names: Vec<&Name> = hk::message_names(m);
+    if let Some(s) = m.signature() {
+        names.push(&s.name);
+    }
+    for n in names {
+        let (t, l) = hk::measure(n);
+        longest = longest.max(t);
+        label = label.max(l);
+    }
+    if longest == 255 {
+        "name-255"
+    } else if longest >= 250 {
+        "name-250+"
+    } else if label == 63 {
+        "label-63"
+    } else if size::message_size(m) > 60_000 {
+        "size-60000+"
+    } else {
+        "other"
+    }
+}
+
+struct DFail {
+    rule: &'static str,
+    sig: String,
+    expected: Value,
+    observed: Value,
+}
+
+/// Clause (D), pure: is `e` a well-formed encoding of `m` for the independent walker?
+/// Ok((walk, pointer report, "an RDATA did not follow the generator's schema" (counted only))).
+fn check_d(m: &Message, e: &[u8]) -> Result<(WMessage, wire::PointerReport, bool), DFail> {
+    let fail = |rule: &'static str, sig: &str, expected: Value, observed: Value| Err(DFail { rule, sig: sig.to_string(), expected, observed });
+    let w = match refwire::walk(e) {
+        Ok(w) => w,
+        Err(err) => return fail("D-malformed", "walk", json!("refwire walks encode(m)"), json!({"error": err, "encoded": hex(e)})),
+    };
+    if w.end != e.len() {
+        return fail("D-malformed", "leftover", json!({"end": e.len()}), json!({"walk_end": w.end, "len": e.len(), "encoded": hex(e)}));
+    }
+    let exp = [
+        m.queries.len(),
+        m.answers.len(),
+        m.authorities.len(),
+        m.additionals.len() + m.edns.is_some() as usize + m.signature.is_some() as usize,
+    ];
+    let obs = [w.header.qd as usize, w.header.an as usize, w.header.ns as usize, w.header.ar as usize];
+    if exp != obs {
+        return fail("D-malformed", "counts", json!(exp), json!({"counts": obs, "encoded": hex(e)}));
+    }
+    // OPT after the ordinary additionals, TSIG last
+    let ar = &w.sections[2];
+    let n_plain = m.additionals.len();
+    let mut k = n_plain;
+    if m.edns.is_some() {
+        if ar.get(k).map(|r| r.rtype) != Some(41) {
+            return fail("D-malformed", "opt-position", json!({"index": k, "type": 41}), json!({"types": ar.iter().map(|r| r.rtype).collect::<Vec<_>>()}));
+        }
+        k += 1;
+    }
+    if m.signature.is_some() && (ar.get(k).map(|r| r.rtype) != Some(250) || k + 1 != ar.len()) {
+        return fail("D-malformed", "tsig-position", json!({"index": k, "type": 250, "last": true}), json!({"types": ar.iter().map(|r| r.rtype).collect::<Vec<_>>()}));
+    }
+    let pr = wire::check_pointers(e, &w);
+    let mut schema_mismatch = false;
+    if let Some((sig, text)) = &pr.problem {
+        // a schema mismatch of RDATA that hickory itself produced is worth knowing, but it is
+        // only a well-formedness violation when it concerns pointers
+        if sig.starts_with("rdata|schema") {
+            schema_mismatch = true;
+        } else {
+            return fail(
+                "D-pointer",
+                sig,
+                json!("every pointer targets an earlier label start; none inside RDATA of non-well-known types"),
+                json!({"problem": text, "encoded": hex(e)}),
+            );
+        }
+    }
+    Ok((w, pr, schema_mismatch))
 }
 
 struct Oracle<'a> {
@@ -263,12 +379,15 @@ struct Oracle<'a> {
 enum Case<'a> {
     Bytes(&'a [u8], &'a str),
     Struct(&'a Message, &'a str),
+    /// struct-level case: the field values themselves (see sbuild.rs)
+    Spec(&'a Value),
 }
 
 impl Case<'_> {
     fn json(&self) -> Value {
         match self {
             Case::Bytes(b, origin) => json!({"kind": "bytes", "origin": origin, "hex": hex(b)}),
+            Case::Spec(v) => json!({"kind": "spec", "spec": v}),
             Case::Struct(m, origin) => {
                 let v = serde_json::to_value(m).unwrap_or(Value::Null);
                 // is the serde form an exact image of the value? (else the replay says so)
@@ -286,55 +405,18 @@ impl Oracle<'_> {
 
     /// Clause (D) on an encoding `e` of message `m`. Returns the walked message when well-formed.
     fn clause_d(&mut self, case: &Case, m: &Message, e: &[u8]) -> Option<(WMessage, wire::PointerReport)> {
-        let w = match refwire::walk(e) {
-            Ok(w) => w,
-            Err(err) => {
-                self.fail("D-malformed", "walk", case, json!("refwire walks encode(m)"), json!({"error": err, "encoded": hex(e)}));
-                return None;
+        match check_d(m, e) {
+            Ok((w, pr, schema_mismatch)) => {
+                if schema_mismatch {
+                    self.rep.count("d_rdata_schema_mismatch");
+                }
+                Some((w, pr))
             }
-        };
-        if w.end != e.len() {
-            self.fail("D-malformed", "leftover", case, json!({"end": e.len()}), json!({"walk_end": w.end, "len": e.len(), "encoded": hex(e)}));
-            return None;
-        }
-        let exp = [
-            m.queries.len(),
-            m.answers.len(),
-            m.authorities.len(),
-            m.additionals.len() + m.edns.is_some() as usize + m.signature.is_some() as usize,
-        ];
-        let obs = [w.header.qd as usize, w.header.an as usize, w.header.ns as usize, w.header.ar as usize];
-        if exp != obs {
-            self.fail("D-malformed", "counts", case, json!(exp), json!({"counts": obs, "encoded": hex(e)}));
-            return None;
-        }
-        // OPT after the ordinary additionals, TSIG last
-        let ar = &w.sections[2];
-        let n_plain = m.additionals.len();
-        let mut k = n_plain;
-        if m.edns.is_some() {
-            if ar.get(k).map(|r| r.rtype) != Some(41) {
-                self.fail("D-malformed", "opt-position", case, json!({"index": k, "type": 41}), json!({"types": ar.iter().map(|r| r.rtype).collect::<Vec<_>>()}));
-                return None;
-            }
-            k += 1;
-        }
-        if m.signature.is_some() && (ar.get(k).map(|r| r.rtype) != Some(250) || k + 1 != ar.len()) {
-            self.fail("D-malformed", "tsig-position", case, json!({"index": k, "type": 250, "last": true}), json!({"types": ar.iter().map(|r| r.rtype).collect::<Vec<_>>()}));
-            return None;
-        }
-        let pr = wire::check_pointers(e, &w);
-        if let Some((sig, text)) = &pr.problem {
-            // a schema mismatch of RDATA that hickory itself produced is worth knowing, but it is
-            // only a well-formedness violation when it concerns pointers
-            if sig.starts_with("rdata|schema") {
-                self.rep.count("d_rdata_schema_mismatch");
-            } else {
-                self.fail("D-pointer", sig, case, json!("every pointer targets an earlier label start; none inside RDATA of non-well-known types"), json!({"problem": text, "encoded": hex(e)}));
-                return None;
+            Err(f) => {
+                self.fail(f.rule, &f.sig, case, f.expected, f.observed);
+                None
             }
         }
-        Some((w, pr))
     }
 
     /// (A): m is a valid message value. Returns the encoding when everything held.
@@ -347,7 +429,19 @@ impl Oracle<'_> {
                 return None;
             }
             Ok(Err(err)) => {
-                self.rep.count(&format!("encoder_rejected/{}", err_kind(&err)));
+                // (E) a message that fits must encode
+                let (kind, est) = (err_kind(&err), size::message_size(m));
+                if est > 65_535 {
+                    self.rep.count(&format!("encoder_rejected/oversize/{kind}"));
+                } else {
+                    self.fail(
+                        "A-encode-failed",
+                        &format!("{kind}|{}", cause_class(m)),
+                        &case,
+                        json!({"encode": "Ok", "because": "the message fits in 65535 octets", "uncompressed_size_estimate": est}),
+                        json!({"error": format!("{err:?}"), "text": err.to_string()}),
+                    );
+                }
                 return None;
             }
             Ok(Ok(e)) => e,
@@ -460,11 +554,25 @@ impl Oracle<'_> {
                 return None;
             }
             Ok(Err(err)) => {
-                self.rep.count(&format!("encoder_rejected/{}", err_kind(&err)));
+                // (E) the decoded value fits in a message (it came out of one) unless its names only
+                // fitted thanks to compression: the estimate counts every name uncompressed
+                let (kind, est) = (err_kind(&err), size::message_size(&m0));
+                if est > 65_535 {
+                    self.rep.count(&format!("encoder_rejected/oversize/{kind}"));
+                } else {
+                    self.fail(
+                        "B-reencode-failed",
+                        &format!("{kind}|{}", cause_class(&m0)),
+                        &case,
+                        json!({"encode(decode(b))": "Ok", "because": "the message fits in 65535 octets", "uncompressed_size_estimate": est}),
+                        json!({"error": format!("{err:?}"), "text": err.to_string()}),
+                    );
+                }
                 return None;
             }
             Ok(Ok(e)) => e,
         };
+        self.rep.count("b_encoded");
         let (w1, pr) = self.clause_d(&case, &m0, &e1)?;
         let m1 = match mon::catch(|| Message::from_vec(&e1)) {
             Err(p) => {
@@ -497,6 +605,102 @@ impl Oracle<'_> {
         }
         self.observe(&m0, &e1, &w1, &pr, origin);
         Some(m0)
+    }
+
+    /// (S) one struct-level case: assembled through the public constructors from `spec`, judged
+    /// by sjudge.rs, reduced to a single part when that part alone fails the same way.
+    fn clause_s(&mut self, spec: &Value) {
+        let b = match sbuild::build(spec) {
+            Ok(b) => b,
+            Err(e) if e.starts_with("spec:") => {
+                // the generator (or a hand-edited witness) wrote something outside the spec language
+                self.rep.count("s/spec_rejected");
+                self.rep.inconclusive(&format!("struct-level spec not buildable: {e}"));
+                return;
+            }
+            Err(e) => {
+                // a public constructor refused field values that are valid on the wire
+                self.rep.eval();
+                let slug: String = e.chars().filter(|c| c.is_alphanumeric() || *c == ' ').take(60).collect::<String>().trim().replace(' ', "-");
+                self.fail("S-construct-failed", &slug, &Case::Spec(spec), json!("a value"), json!({"error": e}));
+                return;
+            }
+        };
+        self.rep.eval();
+        self.rep.count("s/messages");
+        match sjudge::judge(&b) {
+            Ok(None) => self.rep.count("s/oversize_not_judged"),
+            Ok(Some(obs)) => self.observe_s(&b, &obs),
+            Err(fail) => {
+                let parts = sjudge::parts(spec);
+                if parts.len() > 1 {
+                    for p in &parts {
+                        let Ok(pb) = sbuild::build(p) else { continue };
+                        if let Err(f2) = sjudge::judge(&pb) {
+                            if f2.rule == fail.rule && f2.kind == fail.kind {
+                                let sig = sjudge::signature(&f2, &pb);
+                                self.fail(f2.rule, &sig, &Case::Spec(p), f2.expected, f2.observed);
+                                return;
+                            }
+                        }
+                    }
+                }
+                let sig = sjudge::signature(&fail, &b);
+                self.fail(fail.rule, &sig, &Case::Spec(spec), fail.expected, fail.observed);
+            }
+        }
+    }
+
+    fn observe_s(&mut self, b: &sbuild::Built, obs: &sjudge::SObs) {
+        self.rep.count("s/held");
+        if obs.schema_mismatch {
+            self.rep.count("d_rdata_schema_mismatch");
+        }
+        if obs.records >= 1 && obs.pointers >= 1 {
+            self.rep.nontrivial(fnv64(&obs.encoding));
+            self.rep.count("nontrivial_cases");
+            self.rep.count("s/nontrivial");
+        }
+        self.rep.add("s/rdata_bytes_compared", obs.rdata_compared as u64);
+        self.rep.count("s/harness_wire_decoded");
+        self.rep.max("s/max_encoded_len", obs.encoding.len() as f64);
+        for r in b.sections.iter().flatten() {
+            self.rep.count(&format!("s/type/{}", r.tname));
+        }
+        if b.tsig.is_some() {
+            self.rep.count("s/type/TSIG");
+        }
+        if let Some((_, _, opts)) = &b.opt {
+            self.rep.count("s/type/OPT");
+            for (code, _) in opts {
+                let kind = match code {
+                    3 => "NSID",
+                    5 => "DAU",
+                    6 => "DHU",
+                    7 => "N3U",
+                    8 => "Subnet",
+                    9 => "Expire",
+                    10 => "Cookie",
+                    11 => "Keepalive",
+                    12 => "Padding",
+                    13 => "Chain",
+                    15 => "EDE",
+                    _ => "Unknown",
+                };
+                self.rep.count(&format!("s/opt/{kind}"));
+            }
+        }
+        for t in b.all_tags().0 {
+            self.rep.count(&format!("s/boundary/{t}"));
+        }
+        self.rep.count(&format!("s/opcode/{}", u8::from(b.msg.metadata.op_code)));
+        if let Some(s) = b.msg.signature() {
+            let alg = match &s.data.algorithm {
+                hickory_proto::rr::rdata::tsig::TsigAlgorithm::Unknown(_) => "unknown".to_string(),
+                a => a.to_string(),
+            };
+            self.rep.count(&format!("s/tsig_alg/{alg}"));
+        }
     }
 
     fn clause_c(&mut self, case: &Case, b: &[u8], w0: &WMessage, e: &[u8], w1: &WMessage) -> bool {
@@ -1020,6 +1224,13 @@ fn tame_picky(mut b: Vec<u8>) -> Vec<u8> {
 
 // ---------------------------------------------------------------------------------------------
 
+// struct-level workload: messages per run (before the driver's quick_scale) and must-observe floors
+const S_QUICK: u64 = 100_000;
+const S_THOROUGH: u64 = 6_000_000;
+const S_MUST_MESSAGES: u64 = 60_000;
+const S_MUST_PER_KIND: u64 = 300;
+const S_MUST_PER_TAG: u64 = 100;
+
 fn main() {
     let ctx = Ctx::from_args("C02");
     mon::install_panic_monitor();
@@ -1042,7 +1253,8 @@ fn main() {
                     rep.inconclusive("replay: struct case not deserialisable");
                 }
             },
-            _ => rep.inconclusive("replay: unknown case kind"),
+            Some("spec") => o.clause_s(&c["spec"]),
+            _ => o.rep.inconclusive("replay: unknown case kind"),
         }
         rep.replay_finish();
     }
@@ -1068,6 +1280,39 @@ fn main() {
     rep.must("shape/crossing_3fff", 10);
     rep.must("shape/names_after_3fff", 5);
     rep.must("accepted/mutant", 1_000);
+    rep.must("b_encoded", 50_000);
+    // struct-level part (quick observes ≥ 3x these at seeds 1..5)
+    rep.must("s/messages", if thorough { 500_000 } else { S_MUST_MESSAGES });
+    rep.must("s/held", if thorough { 400_000 } else { S_MUST_MESSAGES * 3 / 4 });
+    rep.must("s/rdata_bytes_compared", S_MUST_MESSAGES);
+    rep.must("s/harness_wire_decoded", S_MUST_MESSAGES * 3 / 4);
+    rep.must("s/nontrivial", S_MUST_MESSAGES / 4);
+    for k in sgen::KINDS {
+        rep.must(&format!("s/type/{k}"), S_MUST_PER_KIND);
+    }
+    for k in ["OPT", "TSIG", "Update0"] {
+        rep.must(&format!("s/type/{k}"), S_MUST_PER_KIND);
+    }
+    for k in ["DAU", "Subnet", "NSID", "DHU", "N3U", "Cookie", "Keepalive", "Padding", "Expire", "Chain", "EDE", "Unknown"] {
+        rep.must(&format!("s/opt/{k}"), S_MUST_PER_KIND / 2);
+    }
+    for t in sbuild::TAG_PRIORITY {
+        rep.must(&format!("s/boundary/{t}"), if *t == "msg-65535" { 3 } else { S_MUST_PER_TAG });
+    }
+    for op in 0..16 {
+        rep.must(&format!("s/opcode/{op}"), S_MUST_PER_KIND);
+    }
+    // every RData variant has a public way to a value; what the struct-level part deliberately does
+    // not generate (see props assumptions)
+    rep.note(
+        "s_not_generated",
+        json!({
+            "RData::ZERO": "deprecated placeholder without wire form",
+            "DNSSECRData::Unknown": "no decoder path yields it (unknown codes decode to RData::Unknown)",
+            "RData::OPT / RData::TSIG as section records": "held as Message::edns / Message::signature",
+            "not_constructible": [],
+        }),
+    );
 
     let mut rng = ctx.rng("main");
     let mut pool = Pool { records: Vec::new(), sigs: Vec::new(), queries: Vec::new() };
@@ -1125,6 +1370,24 @@ fn main() {
                 o.clause_bcd(&e, "big-reencoded");
             }
         }
+    }
+
+    // W5: struct-level messages assembled through the public constructors (no decoder involved) ->
+    // clauses S(i)-(v) + (D). The message index is global (interleaved over the shards): flag
+    // combination, opcode, primary record kind, boundary mode, first EDNS option kind and TSIG
+    // algorithm are functions of it, so the enumerated parts are covered at every seed.
+    let n_s = ctx.budget(S_QUICK, S_THOROUGH);
+    let mut srng = ctx.rng("struct-level");
+    for i in 0..n_s {
+        let index = i * ctx.nshards + ctx.shard;
+        let spec = {
+            let mut g = sgen::SGen::new(&mut srng, index);
+            g.message(index)
+        };
+        if i < 2 {
+            o.rep.sample(|| json!({"workload": "struct-level", "spec": spec}));
+        }
+        o.clause_s(&spec);
     }
 
     std::process::exit(rep.finish().min(0));
